@@ -64,6 +64,7 @@ type ledger struct {
 	nCommit    int
 	nPrecommit int
 	nDouble    int
+	nEvidence  int
 	nEquivCert bool // an equivocation (different-hash precommit/cert vote from a counted sender) was delivered in a certificate context
 	ring       map[[2]uint64]bool
 	commits    []commitObs
@@ -178,6 +179,25 @@ func (l *ledger) afterVote(w *world, a []uint64, st ucon.VerifC03Step, evs []str
 			}
 		}
 	}
+	// staking evidence (BLS world, version >= V5) may only be posted for a real equivocation: the sender already has a
+	// stored vote for a different hash in this (context, kind, vote kind != next-index)
+	for _, e := range evs {
+		if strings.HasPrefix(e, "evidence ") {
+			l.nEvidence++
+			k := ledKey{a[1], a[2], a[12] == 1, a[0], a[5]}
+			ok := false
+			if recs := l.recs[k]; eligible && a[0] != 4 && len(recs) > 0 {
+				for _, rec := range recs[:len(recs)-1] {
+					if rec.reached && rec.h != a[3] {
+						ok = true
+					}
+				}
+			}
+			if !ok {
+				l.fail(fmt.Sprintf("evidence_only_for_equivocation: double-vote evidence posted for sender %d in (%d,%d) vote kind %d although it has no stored vote for another hash", a[5], a[1], a[2], a[0]), "")
+			}
+		}
+	}
 	l.ownVotes(w, evs)
 	ts := []uint64{a[13]}
 	if s := w.sel[2]; s != nil {
@@ -201,6 +221,9 @@ func (l *ledger) check(w *world, evs []string, thresholds []uint64, msg []uint64
 	}
 	if s := w.aliasing(); s != "" {
 		l.fail("aliasing: "+s, "")
+	}
+	if s := w.existOver(); s != "" {
+		l.fail("start_vote_question: "+s, "")
 	}
 	dd := w.d.C03Dump()
 	// ---- double_voter_weightless -------------------------------------------------------------------------------
